@@ -258,8 +258,13 @@ def check(ctx):
         a = c.args[0] if c.args else None
         ok = False
         why = ""
+        from ..common import value_alternatives, says_not_none
+        from ..model import enclosing_stmt
+        alts_a = value_alternatives(a, failall.node, enclosing_stmt(c)) if a is not None else []
         if isinstance(a, ast.Call):
             ok = True
+        elif alts_a and all(isinstance(v, ast.Call) or (isinstance(v, ast.Name) and v.id == p and any(says_not_none(t, pl, p) for t, pl in cs)) for v, cs in alts_a):
+            ok = True              # a constructed exception, or the caller's value on the paths where it is known not to be None
         elif isinstance(a, ast.Name) and a.id == p:
             # guarded locally?
             guarded = False
